@@ -14,11 +14,12 @@ class R:
     extra = {}
     fails = []
     def fail(self, kind, case, what, **kw): self.fails.append((kind, what))
+    def count(self, *a, **k): pass
 for prop in ('C11', 'C16', 'C18'):
     r = R(); r.extra = {}; r.fails = []
     bridge.check(r, prop)
     b = r.extra['translator_bridge']
-    print(sys.argv[1], prop, json.dumps(b.get('status')), 'dis=', b.get('small_scope_disagreements'), r.fails[:1])
+    print(sys.argv[1], prop, json.dumps(b.get('status')), 'dis=', b.get('small_scope_disagreements'), b.get('replayed_on_code', [])[:3], (b.get('small_scope_examples') or [''])[0][:300])
 PY
   git -C /repo worktree remove --force $WT
 done
